@@ -16,10 +16,11 @@ EXTENDS Integers, Sequences, FiniteSets, TLC
 
 \* "other": a different, perfectly valid prefix (the addresses of the message stay under the usual one)
 PrefixClasses == {"ok", "upper", "mixed", "empty", "toolong", "badchar", "other"}
-AddrClasses   == {"ok", "wrongprefix", "badchecksum", "notbech32", "upper", "empty"}
+\* ("extprefix": a checksum-valid address whose prefix merely STARTS with the section's prefix, e.g. osmovaloper1... under osmo)
+AddrClasses   == {"ok", "wrongprefix", "extprefix", "badchecksum", "notbech32", "upper", "empty"}
 OptAddrClasses == AddrClasses \cup {"none"}
 \* ("dupfar" / "dupcasefar": the repetition is NOT next to its first occurrence)
-ListClasses   == {"ok", "empty", "dup", "onewrongprefix", "onebadchecksum", "dupcase", "dupfar", "dupcasefar"}
+ListClasses   == {"ok", "empty", "dup", "onewrongprefix", "oneextprefix", "onebadchecksum", "dupcase", "dupfar", "dupcasefar"}
 DenomClasses  == {"ok", "short", "nonalpha"}
 IbcDenomClasses == {"ok", "noprefix", "len63", "len65", "multibyte64"}
 ChannelClasses == {"ok", "noprefix", "nonnumeric", "empty", "bare", "signed", "negative", "spaced"}
